@@ -29,6 +29,11 @@ Theorem canon_idempotent : forall n : node, canon FP (canon FP n) = canon FP n.
 Proof. exact canon_idempotent_current. Qed.
 Print Assumptions canon_idempotent.
 
+(* hence re-saving a loaded unit is byte-identical (and leaves the same latch) *)
+Theorem resave_identical : forall (st : Z) (n : node), enc FP st (canon FP n) = enc FP st n.
+Proof. exact resave_identical_current. Qed.
+Print Assumptions resave_identical.
+
 (* the library header: reading what libPutHeader wrote gives the header back *)
 Theorem hdr_roundtrip : forall (h : hdr) (rest : bytes),
   wf_hdr LP h -> parse_hdr LP (write_hdr h ++ rest) = Some (h, rest).
